@@ -151,3 +151,71 @@ func colPosCheck(run *Run) string {
 	}
 	return "ok"
 }
+
+// hdrCfgCheck: reconstructing each table's configuration from the incremental `key: value`
+// header lines of the text and of the CSV output must give exactly the table key of its cells
+// (every table field except .unit, an empty value included).
+func hdrCfgCheck(run *Run, s *Stream) string {
+	var csvHdr, textHdr [][]string
+	var cur []string
+	inHdr := true
+	flush := func(dst *[][]string) {
+		*dst = append(*dst, cur)
+		cur, inHdr = nil, true
+	}
+	for _, r := range splitCSVLines(run.csv) {
+		switch {
+		case len(r) == 1 && r[0] == "":
+			flush(&csvHdr)
+		case inHdr && len(r) == 1:
+			cur = append(cur, r[0])
+		default:
+			inHdr = false
+		}
+	}
+	if len(run.csv) > 0 {
+		flush(&csvHdr)
+	}
+	for _, l := range linesOf(run.text) {
+		switch {
+		case l == "":
+			flush(&textHdr)
+		case inHdr && !strings.Contains(l, "│"):
+			cur = append(cur, l)
+		default:
+			inHdr = false
+		}
+	}
+	if len(run.text) > 0 {
+		flush(&textHdr)
+	}
+	for _, out := range []struct {
+		name string
+		hdr  [][]string
+	}{{"csv", csvHdr}, {"text", textHdr}} {
+		if len(out.hdr) != len(run.tables.Tables) {
+			return fmt.Sprintf("%s:%d-header-blocks-for-%d-tables", out.name, len(out.hdr), len(run.tables.Tables))
+		}
+		state := map[string]string{}
+		seen := map[string]bool{}
+		for ti := range run.tables.Tables {
+			for _, l := range out.hdr[ti] {
+				i := strings.Index(l, ": ")
+				if i < 0 {
+					return fmt.Sprintf("%s:table%d-bad-header-line-%q", out.name, ti, l)
+				}
+				state[l[:i]], seen[l[:i]] = l[i+2:], true
+			}
+			for _, f := range s.TF {
+				if f.Name == ".unit" {
+					continue
+				}
+				want := run.tables.Keys[ti].Get(f)
+				if !seen[f.Name] || state[f.Name] != want {
+					return fmt.Sprintf("%s:table%d-%s-reads-%q-is-%q", out.name, ti, f.Name, state[f.Name], want)
+				}
+			}
+		}
+	}
+	return "ok"
+}
